@@ -458,6 +458,24 @@ func runC20(r *mon.Run, replay string) {
 			}
 			seen[string(k1)] = ix
 			r.Count("keys_derived", 1)
+			// a holder wiping (or scribbling over) the key it was handed must not
+			// change what the next derivation returns, nor a key held by someone else
+			held := string(k2)
+			for j := range k1 {
+				k1[j] = 0
+			}
+			if rng.IntN(2) == 0 {
+				for j := range k1 {
+					k1[j] = byte(rng.Uint32())
+				}
+			}
+			if string(k2) != held {
+				r.Violation("key-derivation:shared-memory", "a key held by one caller changed when another caller wiped the key it had been handed for the same phrase and index", c20Case{Kind: "key-wipe", Phrase: phrase, Index: ix}, nil)
+			}
+			if k3 := wallet.KeyFromSeed(&s1, ix); !bytes.Equal(k3, ref) {
+				r.Violation("key-derivation:after-wipe", "after a caller wiped the key it had been handed, deriving the same phrase and index again does not return the key", c20Case{Kind: "key-wipe", Phrase: phrase, Index: ix}, nil)
+			}
+			r.Count("keys_derived_again_after_the_caller_wiped_its_copy", 1)
 		}
 		// the same seed variable re-used for another phrase: keys follow the
 		// contents of the seed, not the variable
